@@ -195,6 +195,22 @@ void drv_apply(const char* op)
       r = (unsigned char)p[rbn];
     }
     else if(IS("compare")) { if(VAR(k) && nulfreeS(s) && nulfreeS(*S[k])) { int c = s.compare(*S[k]); r = c < 0 ? -1 : c > 0 ? 1 : 0; } else ok = 0; }
+    else if(IS("cmpx"))
+    {
+      // length-limited and case-insensitive comparisons, member and static versions (see ByteStrings!Result)
+      if(VAR(k) && nulfreeS(s) && nulfreeS(*S[k]) && n >= 0)
+      {
+        const String& a = s; const String& b = *S[k];
+        #define SGN(x) ((x) < 0 ? 0 : (x) > 0 ? 2 : 1)
+        int cn = a.compare(b, (usize)n), ci = a.compareIgnoreCase(b), cin = a.compareIgnoreCase(b, (usize)n);
+        r = SGN(cn) + 3 * SGN(ci) + 9 * SGN(cin) + 27 * ((a.equalsIgnoreCase(b) ? 1 : 0) + (a.equalsIgnoreCase(b, (usize)n) ? 2 : 0));
+        const char* p1 = a; const char* p2 = b;
+        int scn = String::compare(p1, p2, (usize)n), sci = String::compareIgnoreCase(p1, p2), scin = String::compareIgnoreCase(p1, p2, (usize)n), sc = String::compare(p1, p2);
+        rn = SGN(scn) + 3 * SGN(sci) + 9 * SGN(scin) + 27 * SGN(sc);
+        #undef SGN
+      }
+      else ok = 0;
+    }
     else if(IS("rel"))
     {
       if(VAR(k) && nulfreeS(s) && nulfreeS(*S[k]))
